@@ -36,8 +36,10 @@ pub enum Sep {
     /// nothing where two tokens may touch, otherwise one space
     Tight,
     BlankLinesIndent,
+    /// a multi-byte comment and a tab, then a line break: non-ASCII text on every line of a multi-line span
+    MultiByteLines,
 }
-pub const ALL_SEPS: [Sep; 9] = [Sep::Space, Sep::Newline, Sep::Tab, Sep::BlockComment, Sep::LineComment, Sep::CrLf, Sep::MultiByteComment, Sep::Tight, Sep::BlankLinesIndent];
+pub const ALL_SEPS: [Sep; 10] = [Sep::Space, Sep::Newline, Sep::Tab, Sep::BlockComment, Sep::LineComment, Sep::CrLf, Sep::MultiByteComment, Sep::Tight, Sep::BlankLinesIndent, Sep::MultiByteLines];
 
 impl Sep {
     pub fn text(&self) -> &'static str {
@@ -51,6 +53,7 @@ impl Sep {
             Sep::MultiByteComment => " /*é✓😀*/\t",
             Sep::Tight => "",
             Sep::BlankLinesIndent => "\n\n    ",
+            Sep::MultiByteLines => "\t/*é✓😀*/ // données ☃\n\t",
         }
     }
     pub fn has_newline(&self) -> bool {
